@@ -345,6 +345,7 @@ func runC06(c *Ctx) {
 		ruleConfigParsed(c, p, "C06.config")
 		ruleConfiguredFlag(c, p, "C06.configured")
 		ruleInferCache(c, p, "C06.infer-cache")
+		ruleInferIndex(c, p, "C06.infer-index")
 		c.R.Rule("C06.errors", "E6 (as C07.errors): every read error on the decode side reaches only failure exits - a swallowed error turns hostile input into a silently wrong (internally inconsistent) result")
 		nE := runErrDisc(c, p, p.Funcs(), errDiscOpts{Rule: "C06.errors", Class: readerClass(p), Exempt: isDoReceiverPacket})
 		c.R.Floor("C06.errors", cfg.Name, nE, 190)
@@ -2034,4 +2035,113 @@ func ruleInferCache(c *Ctx, p *core.Program, rule string) {
 		}
 	}
 	c.R.Count("Infer methods with a same-type shortcut["+cfg+"]", n)
+}
+
+// ---- C06.infer-index: Infer does not index a list parsed from the type string by its own positions
+// inferIndexHits: in fn, indexed accesses s[i] where i is the index of a loop over another collection
+// and no comparison involving len(s) dominates the access.
+func inferIndexHits(fn *ssa.Function) (sites []ssa.Instruction, guarded []bool) {
+	for _, b := range fn.Blocks {
+		for _, in := range b.Instrs {
+			var x, idx ssa.Value
+			switch v := in.(type) {
+			case *ssa.IndexAddr:
+				x, idx = v.X, v.Index
+			case *ssa.Index:
+				x, idx = v.X, v.Index
+			default:
+				continue
+			}
+			if _, isSlice := x.Type().Underlying().(*types.Slice); !isSlice {
+				continue
+			}
+			ph, ok := stripConv(idx).(*ssa.Phi)
+			if !ok {
+				// rotated range loops index with phi+1
+				if bo, okb := stripConv(idx).(*ssa.BinOp); okb && bo.Op == token.ADD {
+					ph, ok = bo.X.(*ssa.Phi)
+				}
+				if !ok {
+					continue
+				}
+			}
+			// the collection the loop runs over: the bound of the loop test
+			var over ssa.Value
+			for _, hb := range fn.Blocks {
+				ifi, okI := hb.Instrs[len(hb.Instrs)-1].(*ssa.If)
+				if !okI {
+					continue
+				}
+				bo, okB := ifi.Cond.(*ssa.BinOp)
+				if !okB || bo.Op != token.LSS {
+					continue
+				}
+				if !core.DependsOn(bo.X, func(v ssa.Value) bool { return v == ssa.Value(ph) }, false) {
+					continue
+				}
+				if cl, okC := stripConv(bo.Y).(*ssa.Call); okC {
+					if bi, okb := cl.Call.Value.(*ssa.Builtin); okb && bi.Name() == "len" {
+						over = cl.Call.Args[0]
+					}
+				}
+			}
+			if over == nil || over == x {
+				continue
+			}
+			// the same collection loaded twice (a field) is not "another" one
+			if ox, oo := accessPath(x, 0), accessPath(over, 0); ox == oo && ox != "?" && !strings.Contains(ox, "local") {
+				continue
+			}
+			g := false
+			for _, hb := range fn.Blocks {
+				ifi, okI := hb.Instrs[len(hb.Instrs)-1].(*ssa.If)
+				if !okI || !hb.Dominates(in.Block()) {
+					continue
+				}
+				if core.DependsOn(ifi.Cond, func(v ssa.Value) bool {
+					cl, okC := v.(*ssa.Call)
+					if !okC {
+						return false
+					}
+					bi, okb := cl.Call.Value.(*ssa.Builtin)
+					return okb && bi.Name() == "len" && cl.Call.Args[0] == x
+				}, false) {
+					g = true
+				}
+			}
+			sites = append(sites, in)
+			guarded = append(guarded, g)
+		}
+	}
+	return
+}
+
+func ruleInferIndex(c *Ctx, p *core.Program, rule string) {
+	c.R.Rule(rule, "type inference is total on malformed headers: in every Infer method of package proto (and the proto helpers it calls), a slice that is indexed with the position of a loop over ANOTHER collection (the target's own elements against the element list parsed from the server's type string) is only indexed behind a comparison involving its length - `Tuple(String)` announced for a two-element target otherwise panics with index out of range before the type check can reject it")
+	cfg := p.Cfg.Name
+	n := 0
+	for _, fn := range p.Funcs() {
+		if pkgOf(fn) == nil || pkgOf(fn).Path() != core.PkgProto || fn.Name() != "Infer" || fn.Blocks == nil {
+			continue
+		}
+		if nm := core.RecvNamed2(fn); nm != nil && strings.HasPrefix(nm.Obj().Name(), "verifFixture") {
+			continue
+		}
+		for g := range core.StaticReach(fn, 1) {
+			if pkgOf(g) == nil || pkgOf(g).Path() != core.PkgProto {
+				continue
+			}
+			sites, guarded := inferIndexHits(g)
+			for i, at := range sites {
+				n++
+				key := sprintf("%s/index#%d", core.FuncName(g), i+1)
+				if guarded[i] {
+					c.R.Ok(rule, key, cfg, p.Pos(at.Pos()), "length compared before the access")
+				} else {
+					c.R.Bad(rule, key, cfg, p.Pos(at.Pos()), "a list derived from the server's type string is indexed with the position in the target's own collection without comparing the lengths: a header announcing fewer elements panics (index out of range)")
+				}
+			}
+		}
+	}
+	c.R.Count("cross-collection indexed accesses in Infer["+cfg+"]", n)
 }
